@@ -757,6 +757,8 @@ class Engine(object):
             if REAL in (ta, tb):
                 return self.coerce(a, REAL).z == self.coerce(b, REAL).z
             return self.coerce(a, INT).z == self.coerce(b, INT).z
+        if ta == tb and a.t and len(a.t) == len(b.t) and all(x.eq(y) for x, y in zip(a.t, b.t)):
+            return z3.BoolVal(True)
         if ta == tb:
             if isinstance(ta, TDict):
                 (ks,) = zsorts(ta.k)
